@@ -318,7 +318,7 @@ pub fn run_seq_with_state(seq: &Seq, dir: &Path, driver: &mut Option<Driver>, op
                     if opts.gen_engine {
                         // `<name> open|put|get|del|inc|len|cmp …`: the same request to the generated engine
                         let t: Vec<&str> = line.split_whitespace().collect();
-                        if t.len() >= 2 && ["open", "put", "get", "del", "inc", "len", "cmp"].contains(&t[1]) && t[0].starts_with('m') {
+                        if t.len() >= 2 && ["open", "put", "get", "del", "inc", "len", "cmp", "iter", "stats"].contains(&t[1]) && t[0].starts_with('m') {
                             let g = d.ask(&format!("ge {}", line));
                             if g != a {
                                 gen_diffs.push((line.clone(), g, a.clone()));
